@@ -96,6 +96,7 @@ def kworld (h : Key → Salt → Nat) (fuel : Nat) (t : Salt) : World M KW where
   int := .int
   str := .str
   list := .list
+  newList vs := pure (.list vs)
   tuple := .list
   global n := if n == "len" then pure (.fn .len) else throw "NameError"
   truthy
